@@ -767,6 +767,9 @@ def _getattr(it, lv, ca, node):
     if nm is None:
         if len(ca.pos) > 2:
             return it.engine.getattr_default(it, obj, name, ca.pos[2], node)     # symbolic attribute name
+        c = it.st.contract
+        if c is not None and hasattr(c, "attr_sym"):
+            return c.attr_sym(it, obj, name, node)
         raise Unsupported("getattr with a symbolic name")
     if len(ca.pos) > 2:
         return it.engine.getattr_default(it, obj, nm, ca.pos[2], node)
@@ -778,6 +781,10 @@ def _setattr(it, lv, ca, node):
     obj, name, val = ca.pos
     nm = _literal_str(it, name)
     if nm is None:
+        c = it.st.contract
+        if c is not None and hasattr(c, "setattr_sym"):
+            c.setattr_sym(it, obj, name, val, node)
+            return V.VNone
         raise Unsupported("setattr with a symbolic name")
     it.engine.setattr_(it, obj, nm, val, node)
     return V.VNone
@@ -1862,3 +1869,31 @@ def _vars(it, lv, ca, node):
                     sort=Val, pattern=lambda k: z3.Select(has, k), name="vk2"))
     st.ghost.setdefault("$vars_of", {})[str(st.simp(V.addr(d)))] = obj
     return d
+
+
+# ------------------------------------------------------------------------------------------------
+# executors (T-EXEC) and Context.run
+# ------------------------------------------------------------------------------------------------
+@spec("Context.run")
+def _context_run(it, lv, ca, node):
+    """ctx.run(f, *a): runs f(*a) inside that context (changes made there stay there)."""
+    c = it.st.contract
+    if c is not None and hasattr(c, "context_run"):
+        return c.context_run(it, lv.bound, ca, node)
+    raise Unsupported("Context.run outside a contract that defines it")
+
+
+@spec("EventLoop.run_in_executor")
+def _run_in_executor(it, lv, ca, node):
+    from .interp import AwaitableV
+    used("T-EXEC")
+    return it.st.reg_fun(AwaitableV("executor", {"loop": lv.bound, "executor": ca.pos[0], "fn": ca.pos[1],
+                                                 "args": list(ca.pos[2:]), "star": ca.star}))
+
+
+@spec("await:executor")
+def _await_executor(it, aw, idx, node):
+    c = it.st.contract
+    if c is not None and hasattr(c, "executor_outcome"):
+        return c.executor_outcome(it, aw, idx, node)
+    raise Unsupported("run_in_executor outside a contract that defines its outcome")
